@@ -44,12 +44,12 @@ CapCases ==
       Mk("cap", RecFn, NoArgs, CutParts(<<Lit(EncDtlsHeader(hdr)), RepPart(1, dl)>>, cut), hdr, 13 + dl, cut)]])
 
 (* ---- handshake header grid: the fragment rule *)
-FragIdx == SetToSeq({<<l, o, f, m>> : l \in 1..3, o \in 1..3, f \in 1..4, m \in 1..2})
+FragIdx == SetToSeq({<<l, o, f, m>> : l \in 1..3, o \in 1..3, f \in 1..4, m \in 1..4})
 HsFn == "parse_dtls_message_handshake"
 FragCases ==
   Concat([q \in 1..Len(FragIdx) |->
     LET ix == FragIdx[q]  len == <<0, 1, 5>>[ix[1]]  off == <<0, 1, 16777215>>[ix[2]]
-        flen == <<0, len - 1, len, len + 1>>[ix[3]]  mt == <<14, 99>>[ix[4]]  mseq == <<0, 65535, 258>>[ix[1]] IN
+        flen == <<0, len - 1, len, len + 1>>[ix[3]]  mt == <<14, 99, 16, 11>>[ix[4]]  mseq == <<0, 65535, 258>>[ix[1]] IN
     IF flen < 0 THEN <<>>
     ELSE << Mk("frag", HsFn, NoArgs, <<Lit(EncDtlsHs(mt, len, mseq, off, flen, Fill(2, flen)) \o <<200>>)>>,
                [mt |-> mt, len |-> len, mseq |-> mseq, off |-> off, flen |-> flen], 12 + flen, 13 + flen) >>])
@@ -149,12 +149,15 @@ FragmentRule ==
   LET c == Cases[i] IN
   c.kind = "frag" =>
     LET h == c.want  isf == h.off > 0 \/ h.flen < h.len IN
-    IF isf \/ h.mt = 14
+    IF h.mt = 11 /\ ~isf THEN TRUE      \* an unfragmented Certificate made of filler bytes: whatever the certificate-list decoder says (pinned by the replay)
+    ELSE IF isf \/ h.mt \in {14, 16}
     THEN /\ cres.k = "ok" /\ cres.p = 12 + h.flen
          /\ cres.v.mt = h.mt /\ cres.v.len = h.len /\ cres.v.mseq = h.mseq /\ cres.v.off = h.off /\ cres.v.flen = h.flen
          /\ cres.v.frag = isf
          /\ isf => cres.v.body = [t |-> "Fragment", data |-> Fill(2, h.flen)]
-         /\ ~isf => cres.v.body.t = "ServerDone"
+         /\ (~isf /\ h.mt = 14) => cres.v.body.t = "ServerDone"
+         (* the body of an unfragmented message is its declared `length' bytes, also when fragment_length says more *)
+         /\ (~isf /\ h.mt = 16) => cres.v.body = [t |-> "ClientKeyExchange", kind |-> "Unknown", data |-> SubSeq(Fill(2, h.flen), 1, h.len)]
     ELSE cres.k # "ok"
 BodiesRoundTrip ==
   LET c == Cases[i] IN
